@@ -7,6 +7,7 @@ Not part of any proof; imports only the model (no Mathlib) so it links as an exe
 import Lean.Data.Json
 import Dippy.Model.Analyzer
 import Dippy.Model.Config
+import Dippy.Model.Load
 import Dippy.Generated.Tables
 
 open Lean Dippy
@@ -298,6 +299,32 @@ def kindName : TokKind → String
   | .url => "url" | .variable => "variable" | .absolute => "absolute" | .home => "home"
   | .userHome => "user_home" | .relative => "relative" | .bare => "bare"
 
+def pairTable (j : Json) (k : String) : List (String × Json) :=
+  (arrD j k).toList.filterMap fun e =>
+    match e.getArr? with
+    | .ok pr => some (((pr[0]!).getStr?).toOption.getD "", pr[1]!)
+    | _ => none
+
+def toFS (j : Json) : FS :=
+  let files := pairTable j "isfile"
+  let reads := pairTable j "read"
+  let res := pairTable j "resolve"
+  { isFile := fun p => match files.find? (·.1 == p) with
+      | some (_, v) => (match (v.getStr?).toOption.getD "" with
+          | "yes" => .yes | "no" => .no | "permission" => .permission | _ => .raised)
+      | none => .raised
+    readText := fun p => match reads.find? (·.1 == p) with
+      | some (_, v) => (match v.getObjVal? "ok" with
+          | .ok t => .ok ((t.getStr?).toOption.getD "")
+          | _ => match strD v "err" "raised" with
+            | "permission" => .permission
+            | "oserror" => .oserror (strD v "msg" "")
+            | _ => .raised)
+      | none => .raised
+    resolve := fun p => match res.find? (·.1 == p) with
+      | some (_, v) => (v.getStr?).toOption.getD "<oracle-miss>"
+      | none => "<oracle-miss:resolve>" }
+
 def handle (j : Json) : R Json := do
   let op ← str j "op"
   match op with
@@ -361,6 +388,17 @@ def handle (j : Json) : R Json := do
       ("redirectOps", l Generated.redirectOps), ("arithWalkedAttrs", l Generated.arithWalkedAttrs),
       ("handlerModule", Json.arr (Generated.handlerModule.map fun kv => Json.arr #[Json.str kv.1, Json.str kv.2]).toArray),
       ("descriptionDepth", Json.arr (Generated.descriptionDepth.map fun kv => Json.arr #[Json.str kv.1, Json.num kv.2]).toArray)]
+  | "loadconfig" =>
+    let envPath : Option (Option String) := match optObj j "env_path" with
+      | none => none
+      | some v => match v.getObjVal? "path" with
+        | .ok p => some (some ((p.getStr?).toOption.getD ""))
+        | _ => some none
+    match loadConfig (toParseEnv (j.getObjValD "penv")) (toFS (j.getObjValD "fs")) (← str j "user_config") (← str j "cwd") envPath with
+    | .ok c => return Json.mkObj [("ok", configJson c)]
+    | .configError m => return Json.mkObj [("config_error", Json.str m)]
+    | .raised => return Json.str "raised"
+  | "ancestors" => return Json.arr ((ancestors (← str j "p")).map Json.str).toArray
   | "ping" => return Json.str "pong"
   | other => throw s!"unknown op {other}"
 
